@@ -21,6 +21,8 @@ pub struct KProbe {
     pub checked_success: u32,
     pub checked_refusal: u32,
     pub must_succeed: u32,
+    /// successful kernel calls on an edge between two differently anchored faces
+    pub interface_edge: u32,
 }
 
 fn mid(a: P, b: P) -> P {
@@ -419,6 +421,44 @@ pub fn check_remesh(pre: &State, post: &State, op: &Op, res: &Result<Res, String
             if an1 != an {
                 out.push(fnd("C15", "surviving-face-anchor-changed", format!("{op:?}: anchor of a face that was not modified changed from {an:?} to {an1:?}")));
                 break;
+            }
+        }
+    }
+    if let Some(d) = d {
+        if let (Some(x), Some(y)) = (f0a.get(&canon_poly(&[a, b, c])), f0a.get(&canon_poly(&[b, a, d]))) {
+            if x != y {
+                probe.interface_edge += 1;
+            }
+        }
+    }
+    // a cut subdivides the edge and its adjacent triangles: their anchors are kept by both parts
+    if kind == 1 || kind == 2 {
+        let m = mid(a, b);
+        let ek = |p: P, q: P| (p.min(q), p.max(q));
+        if let Some(Some(an)) = e0.get(&ek(a, b)) {
+            for half in [ek(a, m), ek(m, b)] {
+                if let Some(an1) = e1.get(&half) {
+                    if *an1 != Some(*an) {
+                        out.push(fnd("C15", "cut-edge-half-lost-anchor", format!("{op:?}: the cut edge was anchored to {an:?}, its half {:?} - {:?} is anchored to {an1:?}", pf(half.0), pf(half.1))));
+                        break;
+                    }
+                }
+            }
+        }
+        let mut parents = vec![([a, b, c], [[a, m, c], [m, b, c]])];
+        if let Some(d) = d {
+            parents.push(([b, a, d], [[b, m, d], [m, a, d]]));
+        }
+        for (parent, halves) in parents {
+            if let Some(Some(an)) = f0a.get(&canon_poly(&parent)) {
+                for h in halves {
+                    if let Some(an1) = f1a.get(&canon_poly(&h)) {
+                        if *an1 != Some(*an) {
+                            out.push(fnd("C15", "cut-triangle-half-lost-anchor", format!("{op:?}: a cut triangle was anchored to {an:?}, one of its halves is anchored to {an1:?}")));
+                            break;
+                        }
+                    }
+                }
             }
         }
     }
